@@ -215,6 +215,18 @@ fn check_seq(c: &SeqCase, p: &mut Probe) -> Check {
         let want = own_point([c.bits[3 * k], c.bits[3 * k + 1], c.bits[3 * k + 2]]);
         ensure!((sym - want).norm() < 1e-15, "bit-order", "symbol {k} is {sym}, bits {:?} map to {want} (bit array layout {})", &c.bits[3 * k..3 * k + 3], layout_name(lay));
     }
+    // a bit count that is not a multiple of 3: the documented behaviour is a panic; whatever is
+    // returned instead must still carry every bit (no silent loss of the incomplete symbol)
+    if c.salt & 16 == 16 && c.bits.len() < 3000 {
+        let mut b2 = c.bits.clone();
+        b2.extend((0..1 + (c.salt >> 5 & 1)).map(|i| ((c.salt >> (6 + i)) & 1) as u8));
+        p.class("bit-count-not-multiple-of-3");
+        if let Ok(sym) = guarded(|| modulator.modulate(&gf(&b2))) {
+            let l = Psk8Demodulator::from_noise_sigma(sigma).demodulate(&sym);
+            let hd: Vec<u8> = l.iter().map(|&x| u8::from(x <= 0.0)).collect();
+            ensure!(hd.len() >= b2.len() && hd[..b2.len()] == b2[..], "psk8-bits-lost", "{} bits were modulated into {} symbols without a panic (documented: panics unless the count is a multiple of 3); the hard decisions {} do not return the bits {}", b2.len(), sym.len(), sh(&hd), sh(&b2));
+        }
+    }
     let l = Psk8Demodulator::from_noise_sigma(sigma).demodulate(&s);
     let hd: Vec<u8> = l.iter().map(|&x| u8::from(x <= 0.0)).collect();
     ensure!(hd == c.bits, "psk8-roundtrip", "8PSK hard decisions {} differ from the bits {} (sigma {sigma})", sh(&hd), sh(&c.bits));
@@ -290,7 +302,7 @@ pub fn property() -> Property {
             }),
             Box::new(Sub {
                 name: "roundtrip",
-                rule: "bit sequences of 0..39 symbols (one in 25: 40..699 symbols, one in 300: more than 2^16 bits): every symbol equals the own mapping of its three bits in order (bit order within a symbol), hard decisions (LLR <= 0 -> 1) of the demodulated noiseless symbols return the sequence for any sigma, for 8PSK and BPSK; modulators built by new() or Default::default(); the bit array is handed to the modulators in six memory layouts (owned, reversed view, strided views, offset sub-range); the whole sequence plus bounded pseudo-noise is demodulated in one call and every LLR compared with the own exact posterior log-ratio of its sample (8PSK: 64 eps (|r|/sigma^2 + 1), BPSK: 4 eps relative), and the same demodulator object on the tail of the slice returns bit-identical values; non-trivial = at least two symbols",
+                rule: "bit sequences of 0..39 symbols (one in 25: 40..699 symbols, one in 300: more than 2^16 bits): every symbol equals the own mapping of its three bits in order (bit order within a symbol), hard decisions (LLR <= 0 -> 1) of the demodulated noiseless symbols return the sequence for any sigma, for 8PSK and BPSK; a bit count that is not a multiple of 3 makes the 8PSK modulator panic (documented) or, if it returns, loses no bit; modulators built by new() or Default::default(); the bit array is handed to the modulators in six memory layouts (owned, reversed view, strided views, offset sub-range); the whole sequence plus bounded pseudo-noise is demodulated in one call and every LLR compared with the own exact posterior log-ratio of its sample (8PSK: 64 eps (|r|/sigma^2 + 1), BPSK: 4 eps relative), and the same demodulator object on the tail of the slice returns bit-identical values; non-trivial = at least two symbols",
                 cases: |t| t.pick(300_000, 10_000_000),
                 strategy: seq_strategy,
                 check: check_seq,
